@@ -24,3 +24,10 @@ class uleb_parse:
                "forall(lambda j: $B[$p + j] >= 128, 0, stream.pos - 1 - $p)",
                "stream.pos <= len($B)"]
     raises = {"FieldError": "forall(lambda j: stream.B[stream.pos + j] >= 128, 0, len(stream.B) - stream.pos)"}
+
+
+@contract("elftools/common/utils.py", "struct_parse", props=["C16", "C19", "C01", "C02", "C03", "C04", "C05", "C06", "C07", "C08", "C09",
+                                                            "C10", "C11", "C13", "C14", "C15", "C20"])
+class struct_parse_real:
+    """call sites execute the real body (seek, parse, exception wrapping): no hand-written model of it"""
+    inline = True
